@@ -320,6 +320,28 @@ def _request_numbers_unique(prog, chk):
         ok = ok and len(adds) >= 1
     chk.ob("R6.number-recorded-sent-and-returned", "_async_request", ok, ar.loc,
            "num = self.request_number is written as the first field, recorded in _expecting[num] and returned; the counter advances once")
+    # the reader side of the same lock: _read_response never reaches its acquire() with the lock still held (the lock is
+    # not re-entrant: an iteration that leaves it held blocks the next one for ever) and holds nothing at any exit
+    rr_ = prog.func("SFTPClient._read_response")
+    lfr = LockFlow(prog, rr_, implicit=True)
+    acq = [n for (n, c) in lfr.fl.nodes_with_call(name="self._lock.acquire")]
+    held_at_acquire = [n for n in acq if any("self._lock" in s_ for (p_, lab) in lfr.cfg.pred[n.id] for s_ in lfr.outs.get(p_, ()))]
+    chk.ob("R6.reader-lock-balanced", "_read_response", bool(acq) and not held_at_acquire and not lfr.held_at_exit(), rr_.loc,
+           "%d acquire site(s); held when reached again: %s; held at an exit: %s" % (len(acq), bool(held_at_acquire), sorted(lfr.held_at_exit()) or "no"))
+    # listdir_iter waits for exactly the requests of the current batch: the list of request numbers is emptied after a
+    # batch was read to its end, before the next batch is issued (else it waits for answers that already came)
+    li = prog.func("SFTPClient.listdir_iter")
+    fli = Flow(prog, li, implicit=False)
+    appends = [n for (n, c) in fli.nodes_with_call(name="nums.append")]
+    resets = fli.nodes(lambda n: n.kind == "stmt" and isinstance(n.ast, ast.Assign) and unparse(n.ast.targets[0]) == "nums" and unparse(n.ast.value) in ("list()", "[]"))
+    waits_ = [n for n in fli.nodes(lambda n: n.kind == "for_iter" and unparse(n.ast.iter) == "nums")]
+    okl = bool(appends) and bool(waits_) and len(resets) >= 2
+    if okl:
+        # once the await loop has been entered, the next request is issued only after a reset
+        reach = fli.cfg.reach([waits_[0].id], avoid_nodes=set(r.id for r in resets))
+        okl = not (set(reach) & set(a_.id for a_ in appends))
+    chk.ob("R5.listdir-batch-reset", "listdir_iter", okl, li.loc,
+           "%d reset(s) of nums; the next batch is issued only after the list of awaited numbers was emptied" % len(resets))
     snd = [n for (n, c) in lf.fl.nodes_with_call(name="self._send_packet")]
     okb = len(snd) == 1 and len(regs) == 1 and lf.fl.dominated(snd, guard_nodes=regs, complete=True)
     chk.ob("R6.registered-before-sent", "_async_request", okb, ar.loc,
